@@ -386,3 +386,190 @@ theorem numericField_error {v : Val} {scale ref : Int} {n : Nat} {e : Err}
       rw [numericField_value v scale ref q n hv hq] at h
       exact fieldUInt_error h
 
+/-! #### code / flag -/
+
+def codeflagField (v : Val) (n : Nat) : CM Bits :=
+  match v with
+  | .missing => (missingPattern n).bind fun p => fieldUInt p n
+  | .int i => fieldUInt i n
+  | _ => .error .other
+
+theorem encCodeflagU_noval (dd : DDesc) (n : Nat) (s : St) (h : s.curVal = none) :
+    encCodeflagU dd n s = .error .other := by
+  simp only [St.curVal, curVals] at h
+  simp only [encCodeflagU, nextVal, nthVal, St.pushDesc, curVals, h, bind, Except.bind]
+
+theorem encCodeflagU_eq (dd : DDesc) (n : Nat) (s : St) (v : Val) (h : s.curVal = some v) :
+    encCodeflagU dd n s = (codeflagField v n).map (s.afterWrite dd) := by
+  simp only [St.curVal, curVals] at h
+  simp only [encCodeflagU, nextVal, nthVal, St.pushDesc, curVals, h, bind, Except.bind, pure, Except.pure]
+  cases v with
+  | missing =>
+    simp only [codeflagField]
+    cases missingPattern n with
+    | error e => rfl
+    | ok p =>
+      simp only [Except.bind]
+      cases fieldUInt p n with
+      | error e => rfl
+      | ok f => simp only [St.write_ok, Except.map, St.afterWrite]
+  | int i =>
+    simp only [codeflagField]
+    cases fieldUInt i n with
+    | error e => rfl
+    | ok f => simp only [St.write_ok, Except.map, St.afterWrite]
+  | num m k => rfl
+  | bytes b => rfl
+
+theorem codeflagField_inv {v : Val} {n : Nat} {f : Bits} (h : codeflagField v n = .ok f) :
+    ∃ raw : Nat, 0 < n ∧ raw < 2 ^ n ∧ f = toBits n raw ∧
+      ((v = .missing ∧ raw = 2 ^ n - 1 ∧ n ≤ 64) ∨ v = .int raw) := by
+  cases v with
+  | missing =>
+    simp only [codeflagField] at h
+    cases hp : missingPattern n with
+    | error e => rw [hp] at h; cases h
+    | ok p =>
+      rw [hp] at h
+      obtain ⟨h64, rfl⟩ := missingPattern_inv hp
+      obtain ⟨h1, _, h3, h4⟩ := fieldUInt_inv h
+      exact ⟨2 ^ n - 1, h1, by simpa using h3, by simpa using h4, .inl ⟨rfl, rfl, h64⟩⟩
+  | int i =>
+    simp only [codeflagField] at h
+    obtain ⟨h1, h2, h3, h4⟩ := fieldUInt_inv h
+    refine ⟨i.toNat, h1, h3, h4, .inr ?_⟩
+    congr 1; omega
+  | num m k => cases h
+  | bytes b => cases h
+
+theorem codeflagField_error {v : Val} {n : Nat} {e : Err} (h : codeflagField v n = .error e) : e = .other := by
+  cases v with
+  | missing =>
+    simp only [codeflagField] at h
+    cases hp : missingPattern n with
+    | error e' => rw [hp] at h; cases h; exact missingPattern_error hp
+    | ok p => rw [hp] at h; exact fieldUInt_error h
+  | int i => exact fieldUInt_error h
+  | num m k => cases h; rfl
+  | bytes b => cases h; rfl
+
+theorem decCodeflagU_field (dd : DDesc) (s : St) (f suf : Bits)
+    (h0 : 0 < f.length) (h64 : f.length ≤ 64) (hb : s.bits = f ++ suf) :
+    decCodeflagU dd f.length s =
+      .ok (s.afterRead dd suf (uintVal (if 1 < f.length ∧ f.all id = true then none else some (ofBits f)))) := by
+  simp only [decCodeflagU, St.read, St.pushDesc, hb, readUIntOrNone_append f suf h0 h64,
+    St.pushAll, bind, Except.bind, pure, Except.pure, St.afterRead]
+
+/-! #### character fields -/
+
+def stringField (v : Val) (k : Nat) : CM (List UInt8) :=
+  match v with
+  | .missing => .ok (List.replicate k 0xFF)
+  | .bytes b => .ok (padBytes b k)
+  | _ => .error .other
+
+theorem padBytes_of_length (b : List UInt8) (k : Nat) (h : b.length = k) : padBytes b k = b := by
+  subst h
+  simp [padBytes]
+
+theorem padBytes_replicate (k : Nat) (c : UInt8) : padBytes (List.replicate k c) k = List.replicate k c :=
+  padBytes_of_length _ _ (by simp)
+
+theorem padBytes_idem (b : List UInt8) (k : Nat) : padBytes (padBytes b k) k = padBytes b k :=
+  padBytes_of_length _ _ (padBytes_length b k)
+
+theorem encStringU_noval (dd : DDesc) (k : Nat) (s : St) (h : s.curVal = none) :
+    encStringU dd k s = .error .other := by
+  simp only [St.curVal, curVals] at h
+  simp only [encStringU, nextVal, nthVal, St.pushDesc, curVals, h, bind, Except.bind]
+
+theorem encStringU_eq (dd : DDesc) (k : Nat) (s : St) (v : Val) (h : s.curVal = some v) :
+    encStringU dd k s = (stringField v k).map fun b => s.afterWrite dd (bytesToBits b) := by
+  simp only [St.curVal, curVals] at h
+  simp only [encStringU, nextVal, nthVal, St.pushDesc, curVals, h, bind, Except.bind, pure, Except.pure]
+  cases v with
+  | missing =>
+    simp only [stringField, fieldBytes, writeBytes, List.nil_append, St.write_ok, Except.map,
+      St.afterWrite, padBytes_replicate]
+  | bytes b =>
+    simp only [stringField, fieldBytes, writeBytes, List.nil_append, St.write_ok, Except.map, St.afterWrite]
+  | int i => rfl
+  | num m k => rfl
+
+theorem decStringU_field (dd : DDesc) (s : St) (b : List UInt8) (suf : Bits)
+    (hb : s.bits = bytesToBits b ++ suf) :
+    decStringU dd b.length s = .ok (s.afterRead dd suf (.bytes b)) := by
+  simp only [decStringU, St.read, St.pushDesc, hb, readBytes_bytesToBits, St.pushAll,
+    bind, Except.bind, pure, Except.pure, St.afterRead]
+
+/-! #### new reference values (203YYY) -/
+
+theorem fieldInt_inv {i : Int} {n : Nat} {f : Bits} (h : fieldInt i n = .ok f) :
+    1 < n ∧ i.natAbs < 2 ^ (n - 1) ∧ f = decide (i < 0) :: toBits (n - 1) i.natAbs := by
+  unfold fieldInt writeInt writeUInt at h
+  split at h
+  · cases h
+  · split at h
+    · cases h
+    · split at h
+      · cases h
+      · injection h with h
+        rename_i h1 h2 h3
+        have h3' : ¬ 2 ^ (n - 1) ≤ i.natAbs := by simpa using h3
+        refine ⟨by omega, by omega, ?_⟩
+        simpa [writeBool] using h.symm
+
+theorem fieldInt_ok (i : Int) (n : Nat) (hn : 1 < n) (hi : i.natAbs < 2 ^ (n - 1)) :
+    fieldInt i n = .ok (decide (i < 0) :: toBits (n - 1) i.natAbs) := by
+  have := writeUInt_ofNat (writeBool [] (decide (i < 0))) (n - 1) i.natAbs (by omega) hi
+  simpa [fieldInt, writeInt, writeBool] using this
+
+theorem fieldInt_error {i : Int} {n : Nat} {e : Err} (h : fieldInt i n = .error e) : e = .other := by
+  unfold fieldInt writeInt writeUInt at h
+  split at h
+  · cases h; rfl
+  · split at h
+    · cases h; rfl
+    · split at h
+      · cases h; rfl
+      · cases h
+
+theorem readInt_field (n m : Nat) (sgn : Bool) (suf : Bits) (hn : 1 < n) (hm : m < 2 ^ (n - 1)) :
+    readInt n ((sgn :: toBits (n - 1) m) ++ suf) =
+      .ok ((if sgn then -(m : Int) else (m : Int)), suf) := by
+  have hn0 : n ≠ 0 := by omega
+  simp only [readInt, hn0, if_false, List.cons_append, readBool,
+    readUInt_toBits (n - 1) m suf (by omega) hm]
+  rfl
+
+theorem encNewRefvalU_noval (e : Elem) (n : Nat) (s : St) (h : s.curVal = none) :
+    encNewRefvalU e n s = .error .other := by
+  simp only [St.curVal, curVals] at h
+  simp only [encNewRefvalU, nextVal, nthVal, St.pushDesc, curVals, h, bind, Except.bind]
+
+theorem encNewRefvalU_eq (e : Elem) (n : Nat) (s : St) (v : Val) (h : s.curVal = some v) :
+    encNewRefvalU e n s =
+      match v with
+      | .int i => (fieldInt i n).map fun f => (setNewRefval s e.id i).afterWrite (.plain e) f
+      | _ => .error .other := by
+  simp only [St.curVal, curVals] at h
+  simp only [encNewRefvalU, nextVal, nthVal, St.pushDesc, curVals, h, bind, Except.bind, pure, Except.pure]
+  cases v with
+  | int i =>
+    simp only []
+    cases fieldInt i n with
+    | error e => rfl
+    | ok f => simp only [St.write_ok, Except.map, St.afterWrite, setNewRefval, St.setRegs]
+  | missing => rfl
+  | num m k => rfl
+  | bytes b => rfl
+
+theorem decNewRefvalU_field (e : Elem) (n m : Nat) (sgn : Bool) (s : St) (suf : Bits)
+    (hn : 1 < n) (hm : m < 2 ^ (n - 1)) (hb : s.bits = (sgn :: toBits (n - 1) m) ++ suf) :
+    decNewRefvalU e n s =
+      .ok ((setNewRefval s e.id (if sgn then -(m : Int) else (m : Int))).afterRead (.plain e) suf
+            (.int (if sgn then -(m : Int) else (m : Int)))) := by
+  simp only [decNewRefvalU, St.read, St.pushDesc, hb, readInt_field n m sgn suf hn hm, St.pushAll,
+    bind, Except.bind, pure, Except.pure, St.afterRead, setNewRefval, St.setRegs]
+
+end Bufr
